@@ -1,7 +1,7 @@
 import re
 from re import Match, Pattern
 
-from flowmark.linewrapping.tag_handling import TEMPLATE_TAG_PATTERN
+from flowmark.linewrapping.tag_handling import find_template_tags
 
 # Precompiled regex patterns
 PARAGRAPH_BREAK_PATTERN: Pattern[str] = re.compile(r"\n\s*\n")
@@ -141,8 +141,7 @@ def smart_quotes(text: str) -> str:
     segments: list[str] = []
     last_end = 0
 
-    for match in TEMPLATE_TAG_PATTERN.finditer(text):
-        start, end = match.span()
+    for start, end in find_template_tags(text):
 
         # Add the text before this tag (apply smart quotes to it)
         if start > last_end:
@@ -150,7 +149,7 @@ def smart_quotes(text: str) -> str:
             segments.append(_apply_smart_quotes_to_text(before_text))
 
         # Add the tag itself unchanged
-        segments.append(match.group(0))
+        segments.append(text[start:end])
         last_end = end
 
     # Add any remaining text after the last tag
